@@ -310,7 +310,7 @@ fn stmt(m: &Module, st: &Stmt, lvl: usize, s: &mut String) {
             let r = if *rev { "rev " } else { "" };
             let dots = if *incl { "..=" } else { ".." };
             let stp = if *step > 1 { format!(" step += {step}") } else { String::new() };
-            writeln!(s, "{i}for {}: u32 in {r}{lo}{dots}{hi}{stp} {{", m.decls[*var].name).unwrap();
+            writeln!(s, "{i}for {} in {r}{lo}{dots}{hi}{stp} {{", m.decls[*var].name).unwrap();
             if let Some(b) = break_if {
                 writeln!(s, "{}if {} {{", ind(lvl + 1), expr(m, b)).unwrap();
                 writeln!(s, "{}break;", ind(lvl + 2)).unwrap();
